@@ -12,6 +12,9 @@
           parser.add_class_arguments / add_function_arguments against the legal parameters (names, type, default,
           owner); (3) parsing a value for every offered parameter and instantiating must not raise and must deliver
           each value to the signature the specification names.
+          (round 4) programs with a second use of **kwargs under an if (run-time test: every call is made for both
+          values of the test; module-global test: the value is fixed in the source) and pre-filled stored dicts come
+          from the MC_Resolver_*_alt instances and from the random programs.
   TRACE   (code -> spec) seeded random programs beyond TLC's bounds (depth <= 5, more names, parameters, pops,
           hard-coded names, free types / defaults) are observed the same way, every class and helper being a
           component; TLC validates all recorded observations against Trace_Resolver (Ref: verdict, Alg: drift).
@@ -49,13 +52,15 @@ def decl_list(prog, fn_chain=None):
     """every declaration of the program, in a fixed order: (owner, name, t, d)"""
     out = []
 
-    def chain_decls(chain, cid):
-        for j, s in enumerate(chain, 1):
+    def chain_decls(chain, cid, first=1):
+        for j, s in enumerate(chain, first):
             for p in s["ps"]:
                 out.append((f"F{cid}.{j}", p["n"], p["t"], p["d"]))
             if s["kw"]:
                 for n in s["fw"]["q"]:
                     out.append((f"Q{cid}.{j}", n, "none", pop_default_kind(s["fw"], n)))
+                if j < 4:  # (round 4) the function of a second use is number 4 of the def's helpers
+                    chain_decls(s["fw"].get("alt") or [], cid, 4)
 
     if fn_chain:
         chain_decls(fn_chain, 0)
@@ -68,6 +73,7 @@ def decl_list(prog, fn_chain=None):
                 for n in i["fw"]["q"]:
                     out.append((f"P{c}", n, "none", pop_default_kind(i["fw"], n)))
                 chain_decls(i["fw"]["chain"], c)
+                chain_decls(i["fw"].get("alt") or [], c, 4)
         if cl["m"]["has"]:
             for p in cl["m"]["ps"]:
                 out.append((f"M{c}", p["n"], p["t"], p["d"]))
@@ -126,19 +132,34 @@ def _body_src(sig, owner, popowner, vals, call, ind, attr=None):
         args.append(f"{n}=" + (nested if (qpos == "kw" and idx == 0) else repr("hard:" + owner + ":" + n)))
     if attr:  # kwargs is stored in an attribute and unpacked later in a member
         name, member, av = attr
+        pre = "".join(f"{n}={'pre:' + owner + ':' + n!r}, " for n in fw.get("pre") or [])  # (round 4) a pre-filled dict
         if av == "upd":
-            lines += [f"{ind}self.{name} = dict()", f"{ind}self.{name}.update(**kwargs)"]
+            lines += [f"{ind}self.{name} = dict({pre[:-2]})", f"{ind}self.{name}.update(**kwargs)"]
         elif av == "dict":
-            lines.append(f"{ind}self.{name} = dict(**kwargs)")
+            lines.append(f"{ind}self.{name} = dict({pre}**kwargs)")
         else:
             lines.append(f"{ind}self.{name} = kwargs")
         lines.append(f"{ind}_keep(self, {member!r})")
     elif call:
-        lines.append(f"{ind}{call}({', '.join(args + ['**kwargs'])})")
+        amode = fw.get("amode", "-")
+        if amode == "-" or not fw.get("alt"):
+            lines.append(f"{ind}{call}({', '.join(args + ['**kwargs'])})")
+        else:  # (round 4) a second use of **kwargs in the else-branch of an if around the forwarding call
+            cid = owner[1:].split(".")[0]
+            test = {"if": "_cond()", "glob": f"G{cid}", "nglob": f"not G{cid}"}[amode]
+            aargs = [f"{n}={'hard:F' + cid + '.4:' + n!r}" for n in fw.get("ahard") or []]
+            lines += [f"{ind}if {test}:", f"{ind}    {call}({', '.join(args + ['**kwargs'])})", f"{ind}else:",
+                      f"{ind}    f{cid}_4({', '.join(aargs + ['**kwargs'])})"]
     return lines
 
 
-HEADER = ["LOG = []", "OBJS = []", "", "", "def _rec(owner, **vals):", "    LOG.append((owner, vals))", "", "",
+def has_if(prog, fn_chain=None):
+    """the program contains an `if` with a run-time test around two uses of **kwargs: every call is made for both values"""
+    sigs = [cl["init"] for cl in prog["classes"]] + list(fn_chain or [])
+    return any(s["has"] and s["kw"] and s["fw"].get("amode", "-") == "if" for s in sigs)
+
+
+HEADER = ["LOG = []", "OBJS = []", "COND = False", "", "", "def _cond():", "    return COND", "", "", "def _rec(owner, **vals):", "    LOG.append((owner, vals))", "", "",
           "def _peek(kw, owner, name):", "    if name in kw:", "        LOG.append((owner, {name: kw[name]}))", "", "",
           "def _keep(obj, member):", "    OBJS.append((obj, member))", ""]
 
@@ -148,7 +169,21 @@ def render(prog, fn_chain=None):
     vals = default_values(decls)
     src = list(HEADER)
 
+    def alt_src(sig, cid):
+        fw = sig["fw"]
+        if not (sig["has"] and sig["kw"] and fw.get("alt") and fw.get("amode", "-") != "-"):
+            return
+        if fw["amode"] in ("glob", "nglob"):  # the module global the test looks at
+            src.extend([f"G{cid} = {bool(fw['aflag'])!r}", ""])
+        g = fw["alt"][0]
+        items = _params_src(g["ps"], f"F{cid}.4", vals) + (["**kwargs"] if g["kw"] else [])
+        src.extend(["", f"def f{cid}_4({', '.join(items)}):"])
+        src.extend(_body_src(g, f"F{cid}.4", f"Q{cid}.4", vals, None, "    "))
+        src.append("")
+
     def chain_src(chain, cid):
+        if chain:
+            alt_src(chain[0], cid)
         for j in range(len(chain), 0, -1):
             s = chain[j - 1]
             owner = f"F{cid}.{j}"
@@ -170,6 +205,7 @@ def render(prog, fn_chain=None):
         kind = i["fw"]["k"] if (i["has"] and i["kw"]) else None
         if kind in ("func", "attr"):
             chain_src(i["fw"]["chain"], c)
+        alt_src(i, c)
         bases = ", ".join(f"C{b}" for b in cl["bases"])
         src.append("")
         src.append(f"class C{c}({bases}):" if bases else f"class C{c}:")
@@ -247,6 +283,9 @@ def universe(prog, fn_chain=None):
             names.update(p["n"] for p in s["ps"])
             names.update(s["fw"]["q"])
             names.update(s["fw"]["hard"])
+            names.update(s["fw"].get("ahard") or [])
+            names.update(s["fw"].get("pre") or [])
+            chain_names(s["fw"].get("alt") or [])
 
     if fn_chain is not None:
         chain_names(fn_chain)
@@ -255,7 +294,10 @@ def universe(prog, fn_chain=None):
             names.update(p["n"] for p in s["ps"])
         names.update(cl["init"]["fw"]["q"])
         names.update(cl["init"]["fw"]["hard"])
+        names.update(cl["init"]["fw"].get("ahard") or [])
+        names.update(cl["init"]["fw"].get("pre") or [])
         chain_names(cl["init"]["fw"]["chain"])
+        chain_names(cl["init"]["fw"].get("alt") or [])
     return sorted(names)
 
 
@@ -279,27 +321,41 @@ def first_places(log, sent):
     return out
 
 
-def interp_table(mod, target, univ):
-    """(1) what THE INTERPRETER does with every keyword subset: accepted or not, and where each keyword is bound"""
+def interp_table(mod, target, univ, cvs=(False,)):
+    """(1) what THE INTERPRETER does with every keyword subset: accepted or not, and where each keyword is bound
+    (round 4: for every value of the run-time test of an `if` around two uses of **kwargs)"""
     rows = []
-    for r in range(len(univ) + 1):
-        for K in itertools.combinations(univ, r):
-            mod.LOG.clear()
-            mod.OBJS.clear()
-            try:
-                target(**{n: "S:" + n for n in K})
-                use_members(mod)
-                ok = True
-            except (TypeError, AttributeError):
-                ok = False
-            bind = sorted(first_places(mod.LOG, {n: "S:" + n for n in K}).items()) if ok else []
-            rows.append({"K": list(K), "ok": ok, "bind": [list(b) for b in bind]})
+    for cv in cvs:
+        mod.COND = cv
+        for r in range(len(univ) + 1):
+            for K in itertools.combinations(univ, r):
+                mod.LOG.clear()
+                mod.OBJS.clear()
+                try:
+                    target(**{n: "S:" + n for n in K})
+                    use_members(mod)
+                    ok = True
+                except (TypeError, AttributeError):
+                    ok = False
+                bind = sorted(first_places(mod.LOG, {n: "S:" + n for n in K}).items()) if ok else []
+                rows.append({"K": list(K), "cv": cv, "ok": ok, "bind": [list(b) for b in bind]})
+    mod.COND = False
     return rows
+
+
+def slices_of(rows):
+    """per value of the run-time test: the names some successful call of that slice passed"""
+    out = {}
+    for r in rows:
+        out.setdefault(r["cv"], set())
+        if r["ok"]:
+            out[r["cv"]].update(r["K"])
+    return out
 
 
 def summarise(rows):
     oks = [r for r in rows if r["ok"]]
-    if not oks:
+    if not oks or {r["cv"] for r in oks} != {r["cv"] for r in rows}:  # every branch must be usable
         return {"callable": False, "req": [], "acc": [], "bind": []}
     req = set(oks[0]["K"])
     acc, bind = set(), set()
@@ -418,36 +474,52 @@ def observe_parser(target, is_class, vals, offer_by_name):
     return out, parser, added
 
 
-def instantiate_all(parser, added, target, is_class, mod, offer_by_name):
-    """(3) a value for EVERY offered parameter, parsed by the real parser, then instantiate / call"""
-    args = []
-    for k, dest in enumerate(added):
-        n = dest[2:]
-        exp = offer_by_name.get(n)
-        t = exp["t"] if exp else "none"
-        args.append(f"--{dest}=" + (str(7000 + k) if t != "str" else f"val_{n}"))
-    res = {"raised": None, "delivered": [], "args": args}
-    try:
-        cfg = parser.parse_args(args)
-        given = dict(cfg.o.items()) if added else {}
-        mod.LOG.clear()
-        mod.OBJS.clear()
-        if is_class:
-            parser.instantiate_classes(cfg)
-        else:
-            target(**given)
-        use_members(mod)
-    except BaseException as ex:  # SystemExit cannot happen with exit_on_error=False, but nothing may escape
-        res["raised"] = f"{type(ex).__name__}: {ex}"[:300]
-        return res
-    places = first_places(mod.LOG, given)
-    for n in given:
-        res["delivered"].append([n, [places[n]] if n in places else []])
+def instantiate_all(parser, added, target, is_class, mod, offer_by_name, accepted=None):
+    """(3) a value for EVERY offered parameter, parsed by the real parser, then instantiate / call.
+    (round 4) accepted = {value of the run-time test: names THE INTERPRETER accepted in that branch}, given for programs
+    with an `if` around two uses of **kwargs: for each branch, every offered parameter that the branch accepts (the
+    documented Conditional parameters of the other branch cannot be passed together with them)"""
+    res = {"raised": None, "delivered": [], "args": []}
+    for cv, acc in sorted((accepted or {False: None}).items()):
+        args = []
+        for k, dest in enumerate(added):
+            n = dest[2:]
+            if acc is not None and n not in acc:
+                continue
+            exp = offer_by_name.get(n)
+            t = exp["t"] if exp else "none"
+            args.append(f"--{dest}=" + (str(7000 + k) if t != "str" else f"val_{n}"))
+        res["args"].append(args)
+        try:
+            cfg = parser.parse_args(args)
+            given = dict(cfg.o.items()) if added else {}
+            mod.LOG.clear()
+            mod.OBJS.clear()
+            mod.COND = cv
+            if is_class:
+                parser.instantiate_classes(cfg)
+            else:
+                target(**given)
+            use_members(mod)
+        except BaseException as ex:  # SystemExit cannot happen with exit_on_error=False, but nothing may escape
+            res["raised"] = f"{type(ex).__name__}: {ex}"[:300] + (f" [run-time test {cv}]" if accepted else "")
+            return res
+        finally:
+            mod.COND = False
+        places = first_places(mod.LOG, given)
+        for n in given:
+            if accepted and n not in places:
+                continue  # accepted by this branch but swallowed by an unused **kwargs there (it is bound in the other branch)
+            res["delivered"].append([n, [places[n]] if n in places else []])
+    if not accepted:
+        res["args"] = res["args"][0]
     return res
 
 
-def observe_component(mod, target, is_class, univ, vals, offer_by_name=None, with_table=True):
-    obs = {"table": interp_table(mod, target, univ) if with_table else None}
+def observe_component(mod, target, is_class, univ, vals, offer_by_name=None, with_table=True, cvs=(False,), accepted=None):
+    obs = {"table": interp_table(mod, target, univ, cvs) if with_table else None}
+    if with_table and len(cvs) > 1:
+        accepted = slices_of(obs["table"])
     try:
         params, ast_same = observe_resolver(target)
     except Exception as ex:  # get_signature_parameters is documented to return a list, whatever the source looks like
@@ -461,7 +533,7 @@ def observe_component(mod, target, is_class, univ, vals, offer_by_name=None, wit
     pobs, parser, added = observe_parser(target, is_class, vals, offer_by_name)
     obs["parser"] = pobs
     if parser is not None:
-        obs["inst"] = instantiate_all(parser, added, target, is_class, mod, offer_by_name)
+        obs["inst"] = instantiate_all(parser, added, target, is_class, mod, offer_by_name, accepted)
     return obs
 
 
@@ -484,12 +556,14 @@ def _replay_chunk(job):
                 target = getattr(mod, f"C{comp['c']}") if comp["k"] == "cls" else getattr(mod, "f0_1")
                 univ = sorted(case["univ"])
                 obs = {"h": case["h"]}
-                rows = interp_table(mod, target, univ)
+                cvs = (False, True) if has_if(prog, fn_chain) else (False,)
+                rows = interp_table(mod, target, univ, cvs)
                 obs["summary"] = summarise(rows)
                 obs["ncalls"] = len(rows)
                 if case["callable"] and obs["summary"]["callable"]:
                     offer_by_name = {d["n"]: d for d in case["offer"]}
-                    o2 = observe_component(mod, target, comp["k"] == "cls", univ, vals, offer_by_name, with_table=False)
+                    o2 = observe_component(mod, target, comp["k"] == "cls", univ, vals, offer_by_name, with_table=False,
+                                           accepted=slices_of(rows) if len(cvs) > 1 else None)
                     obs.update({k: o2[k] for k in ("resolved", "ast_same", "parser", "inst", "resolver_error") if k in o2})
                 obs["source"] = source
                 out.append(obs)
@@ -547,6 +621,12 @@ def features(prog, comp):
             out.add("positional")
         if fw["k"] == "attr":
             out.add("attr:" + fw.get("av", "-"))
+            if fw.get("pre"):
+                out.add("attr+prefilled:" + fw.get("av", "-"))
+            if fw.get("pos", 0):
+                out.add("attr+positional")
+        if fw.get("alt") and fw.get("amode", "-") != "-":
+            out.add("two-uses:" + fw["amode"] + "/" + fw["k"])
         for f in fw["chain"]:
             of_sig(f)
 
@@ -603,6 +683,13 @@ def classify(rep, prog, comp, exp, obs, source, how):
             if bad:
                 viol("resolver-signature", f"resolved parameter(s) {[(p['n'], p['o'], p['t'], p['d']) for p in bad]} do not carry the type/default "
                      f"of the signature they are bound in {sorted(ref_set)} [{shape}]", {"observed": res})
+            # (round 4) a parameter that some branch of an `if` around two uses does not accept must be Conditional
+            every = exp.get("every")
+            if every is not None and not failed:
+                bad = [p["n"] for p in res if p["d"] != "cond" and p["n"] not in every]
+                if bad:
+                    viol("resolver-uncond", f"parameter(s) {bad} are offered unconditionally although one branch of the conditional calls does not "
+                         f"accept them (accepted by every branch: {sorted(every)}) [{shape}]", {"observed": res})
         if alg is not None and not failed:
             seen = [(p["n"], p["o"], p["t"], p["d"], p["kind"], p["org"]) for p in res]
             want = [(p["n"], p["o"], p["t"], p["d"], p["kind"], p["org"]) for p in alg]
@@ -620,14 +707,20 @@ def classify(rep, prog, comp, exp, obs, source, how):
             if sorted(pn) != ref_names:
                 viol("parser-names", f"the parser offers {pn} but the legal named parameters are {ref_names} [{shape}]", {"observed": po["added"]})
             else:
-                by = {d["n"]: d for d in ref}
+                by = {}
+                for d in ref:  # (round 4: a name can be bound in one declaration per branch of an `if` around two uses)
+                    by.setdefault(d["n"], []).append(d)
                 bad = []
                 for p in po["added"]:
-                    e = by[p["n"]]
                     if p["d"] == "cond" and (p["n"] in {q["n"] for q in (alg or []) if q["d"] == "cond"} or dev != "-"):
                         continue
-                    if p["t"] != e["t"] or p["d"] != e["d"] or (p["d"] == "dflt" and p["o"] != e["o"]):
-                        bad.append((p, e))
+                    if all(p["t"] != e["t"] or p["d"] != e["d"] or (p["d"] == "dflt" and p["o"] != e["o"]) for e in by[p["n"]]):
+                        bad.append((p, by[p["n"]][0]))
+                every = exp.get("every")
+                ubad = [p["n"] for p in po["added"] if p["d"] != "cond" and p["n"] not in every] if every is not None else []
+                if ubad:
+                    viol("parser-uncond", f"parser argument(s) {ubad} are offered unconditionally although one branch of the conditional calls "
+                         f"does not accept them [{shape}]", {"observed": po["added"]})
                 if bad:
                     viol("parser-signature", f"parser argument(s) do not carry the type/default of the signature they are bound in: {bad[:3]} [{shape}]",
                          {"observed": po["added"]})
@@ -636,8 +729,10 @@ def classify(rep, prog, comp, exp, obs, source, how):
         if inst["raised"]:
             viol("instantiate", f"instantiating with every offered parameter raised {inst['raised']} [{shape}]", {"observed": inst})
         else:
-            by = {d["n"]: d["o"] for d in ref}
-            wrong = [(n, where, by.get(n)) for n, where in inst["delivered"] if where != [by.get(n)]]
+            by = {}
+            for d in ref:  # (round 4: one declaration per branch of an `if` around two uses)
+                by.setdefault(d["n"], set()).add(d["o"])
+            wrong = [(n, where, sorted(by.get(n, ()))) for n, where in inst["delivered"] if not (len(where) == 1 and where[0] in by.get(n, ()))]
             if wrong:
                 viol("deliver", f"a parsed value did not arrive at the signature the parameter comes from: {wrong[:3]} [{shape}]", {"observed": inst})
     return failed
@@ -662,7 +757,8 @@ def rand_params(rnd, names, kmax):
     return ps
 
 
-NOFWD = {"k": "ignore", "b": 0, "hard": [], "pos": 0, "q": [], "qop": "pop", "qpos": "stmt", "av": "-", "chain": []}
+NOFWD = {"k": "ignore", "b": 0, "hard": [], "pos": 0, "q": [], "qop": "pop", "qpos": "stmt", "av": "-", "chain": [],
+         "amode": "-", "aflag": False, "ahard": [], "alt": [], "pre": []}
 NOSIG = {"has": False, "ps": [], "kw": False, "fw": dict(NOFWD)}
 
 
@@ -685,7 +781,21 @@ def rand_take(rnd, fw, names, forwarding, nest_ok=True):
         fw["q"], fw["qop"], fw["qpos"] = rnd.sample(names, 2), rnd.choice(["pop", "get"]), "alias"
 
 
-def rand_chain(rnd, names, depth, classes_below=0):
+def rand_alt(rnd, fw, names):
+    """(round 4) a second use of **kwargs in the else-branch of an if around the forwarding call"""
+    if fw["qpos"] != "stmt" or rnd.random() >= 0.3:
+        return
+    g = {"has": True, "ps": rand_params(rnd, names, 2), "kw": rnd.random() < 0.35, "fw": dict(NOFWD)}
+    if g["kw"]:
+        rand_take(rnd, g["fw"], names, False)
+    fw["alt"] = [g]
+    fw["amode"] = rnd.choice(["if", "if", "if", "glob", "nglob"])
+    fw["aflag"] = rnd.random() < 0.5
+    if rnd.random() < 0.3:
+        fw["ahard"] = sorted(rnd.sample(names, 1))
+
+
+def rand_chain(rnd, names, depth, classes_below=0, top=False):
     chain = []
     for j in range(depth):
         last = j == depth - 1
@@ -706,6 +816,8 @@ def rand_chain(rnd, names, depth, classes_below=0):
                 if rnd.random() < 0.4:
                     fw["hard"] = sorted(rnd.sample(names, rnd.randint(1, 2)))
                 rand_take(rnd, fw, names, True)
+                if j == 0 and top:  # only the first function of a chain that is a component itself
+                    rand_alt(rnd, fw, names)
         chain.append({"has": True, "ps": rand_params(rnd, names, 2), "kw": kw, "fw": fw})
     return chain
 
@@ -747,6 +859,13 @@ def rand_program(rnd):
                         fw["chain"] = rand_chain(rnd, names, rnd.randint(1, 3), c - 1)
                     if k == "attr":
                         fw["av"] = rnd.choice(["meth", "prop", "upd", "dict"])
+                        free = [x for x in names if x not in fw["hard"]]
+                        if fw["av"] in ("upd", "dict") and free and rnd.random() < 0.4:
+                            fw["pre"] = sorted(rnd.sample(free, 1))  # (round 4) a pre-filled stored dict
+                        if rnd.random() < 0.12:
+                            fw["pos"] = 1  # (round 4) a hard-coded positional at the call that unpacks the stored dict
+                    else:
+                        rand_alt(rnd, fw, names)
                     if k == "meth":
                         m = {"has": True, "ps": rand_params(rnd, names, 2), "kw": False, "fw": dict(NOFWD)}
                 init["fw"] = fw
@@ -764,7 +883,7 @@ def _trace_chunk(job):
         for sd in seeds:
             rnd = common.rng(f"C13/prog/{sd}")
             prog = rand_program(rnd)
-            fn_chain = rand_chain(rnd, RNAMES[:4], rnd.randint(1, 3), len(prog["classes"])) if rnd.random() < 0.5 else None
+            fn_chain = rand_chain(rnd, RNAMES[:4], rnd.randint(1, 3), len(prog["classes"]), top=True) if rnd.random() < 0.5 else None
             # super(B, self): B must be in the linearisation of the class; ask Python for it
             source, decls, vals = render(prog, fn_chain)
             try:
@@ -793,10 +912,12 @@ def _trace_chunk(job):
                     univ = universe(prog, chain)
                     if len(univ) > 8:
                         continue
-                    rows = interp_table(mod, target, univ)
+                    cvs = (False, True) if has_if(prog, chain) else (False,)
+                    rows = interp_table(mod, target, univ, cvs)
                     rec = {"seed": sd, "prog": prog, "comp": comp, "univ": univ, "table": rows, "source": source}
-                    if any(r["ok"] for r in rows):
-                        o2 = observe_component(mod, target, comp["k"] == "cls", univ, vals, None, with_table=False)
+                    if summarise(rows)["callable"]:
+                        o2 = observe_component(mod, target, comp["k"] == "cls", univ, vals, None, with_table=False,
+                                               accepted=slices_of(rows) if len(cvs) > 1 else None)
                         rec.update({k: o2[k] for k in ("resolved", "ast_same", "parser", "inst", "resolver_error") if k in o2})
                     out.append(rec)
             except Exception as ex:
@@ -814,7 +935,7 @@ def trace_record(rec):
     po = (rec.get("parser") or {}).get("added")
     return {
         "prog": rec["prog"], "comp": rec["comp"],
-        "table": [{"K": r["K"], "ok": r["ok"], "bind": [{"n": b[0], "o": b[1]} for b in r["bind"]]} for r in rec["table"]],
+        "table": [{"K": r["K"], "cv": bool(r.get("cv", False)), "ok": r["ok"], "bind": [{"n": b[0], "o": b[1]} for b in r["bind"]]} for r in rec["table"]],
         "observed": res is not None,
         "resolved": [{"n": p["n"], "o": p["o"], "t": p["t"], "d": p["d"], "kind": p["kind"], "org": p["org"]} for p in (res or [])],
         "parsed": po is not None,
@@ -834,14 +955,26 @@ def main(argv):
         "parameter types are int / str / unannotated, defaults are unique per declaration so that a default identifies the signature it comes from",
         "the AST resolver answers for every program of the grammar (checked per program, reported as drift otherwise); stubs, pydantic / attrs and class-instance defaults are outside the grammar",
         "a parameter the resolver reports as Conditional (documented behaviour for several uses of **kwargs) only has to be legal; its type/default are not compared",
+        "two uses of **kwargs in one def are the documented conditional calls: `if <test>: call1(**kwargs) else: call2(**kwargs)`; a run-time test is a module-level function the harness switches, every call is made for both values, a program one of whose branches can only raise is not a component; legal = legal in some branch, and a parameter some branch does not accept must carry the Conditional marker; instantiation passes, per branch, every offered parameter that branch accepts (observed on the interpreter)",
     ]
     seed = common.seed()
     workers = int(os.environ.get("VERIF_TLC_WORKERS", "16"))
     # ---- MC
-    cfgs = ["MC_Resolver_quick"] if tier == "quick" else ["MC_Resolver_thorough", "MC_Resolver_thorough3", "MC_Resolver_thorough4"]
+    # (round 4) the *_alt instances: programs whose last class / first function has a second use of **kwargs under an
+    # if (run-time test, module global, `not` global) or stores **kwargs in a pre-filled dict
+    cfgs = (["MC_Resolver_quick", "MC_Resolver_quick_alt"] if tier == "quick"
+            else ["MC_Resolver_thorough_alt", "MC_Resolver_thorough", "MC_Resolver_thorough3", "MC_Resolver_thorough4"])
     fails, cases, n_states = [], [], 0
-    for cfgname in cfgs:
-        mc = tlc.run("MC_Resolver", cfgname, workers=workers, timeout=3000, heap="8g", env={"SEL_SEED": seed % 100000})
+    def run_mc(cfgname):
+        return tlc.run("MC_Resolver", cfgname, workers=workers, timeout=3000, heap="8g", env={"SEL_SEED": seed % 100000})
+
+    if tier == "quick":  # the two small instances side by side (wall time)
+        from concurrent.futures import ThreadPoolExecutor
+        with ThreadPoolExecutor(len(cfgs)) as ex:
+            mcs = list(ex.map(run_mc, cfgs))
+    else:
+        mcs = [run_mc(c) for c in cfgs]
+    for cfgname, mc in zip(cfgs, mcs):
         rep.add_tlc(cfgname, mc)
         if mc.errors or mc.rc != 0:
             machinery_failure(PID, f"TLC failed on MC_Resolver ({cfgname}):\n" + mc.stdout[-3000:])
@@ -944,7 +1077,7 @@ def main(argv):
         rep.traces += 1
         if meta[1] != "-":
             n_dev += 1
-        callable_ = any(r["ok"] for r in rec["table"])
+        callable_ = summarise(rec["table"])["callable"]
         if callable_ and (len({p["o"] for p in rec.get("resolved") or []}) > 1):
             rep.note_nontrivial(json.dumps([rec["prog"], rec["comp"]], sort_keys=True))
         if not callable_:
@@ -1004,7 +1137,8 @@ def replay(path):
         target = getattr(mod, f"C{comp['c']}") if comp["k"] == "cls" else getattr(mod, "f0_1")
         offer = case.get("spec_offer")
         obs = observe_component(mod, target, comp["k"] == "cls", universe(prog, chain), vals,
-                                {x["n"]: x for x in offer} if offer else None, with_table=True)
+                                {x["n"]: x for x in offer} if offer else None, with_table=True,
+                                cvs=(False, True) if has_if(prog, chain) else (False,))
         print(source)
         print("key:", d.get("key"))
         print("what:", d.get("what"))
